@@ -12,7 +12,8 @@
    thrift serialiser (C10) and the list assembler (C15) parts are in their own properties' files. *)
 From Coq Require Import NArith ZArith Arith List Bool.
 From Pq Require Import Base.Bytes Base.Err Base.ListX Codec.Varint Codec.Hybrid
-  Impl.CVarint Impl.CBitpack Impl.CRle Impl.CHybrid Impl.CDelta Impl.PyPack Proofs.SafetyProofs Proofs.CHybridProofs.
+  Impl.CVarint Impl.CBitpack Impl.CRle Impl.CHybrid Impl.CDelta Impl.PyPack Proofs.SafetyProofs Proofs.CHybridProofs
+  Codec.Delta Impl.Dispatch Proofs.HybridProofs Proofs.CBitpackProofs Proofs.DispatchProofs.
 Import ListNotations.
 Open Scope N_scope.
 
@@ -80,6 +81,57 @@ Print Assumptions C12_unpadded_last_group_overread_refuted.
 Theorem C12_unpack_byte_array_overrun_refuted : c_unpack_byte_array [3; 0; 0; 0; 97; 98] 1 = UOOB.
 Proof. exact unpack_byte_array_truncated_oob. Qed.
 Print Assumptions C12_unpack_byte_array_overrun_refuted.
+
+(* ---- the CALLERS' buffer allocation (core.read_data_page / read_data_page_v2) ------------------------------------
+   For every index-decoder leaf `DGeneric a isz` that is ADEQUATE for (bit width, selfmade) - the regenerated dispatch of
+   the page readers is proved adequate on the whole lattice 0..32 x {foreign, selfmade} on every run
+   (genproofs/GenDispatchProofs.v) - the output handed to the native decoder is np.empty(n, dtype of `a` bytes) and the
+   decoder is told itemsize = isz: a = isz, the model returns Ok on every spec-encoded stream of runs inside its
+   region, stores exactly min(total, n) items and never writes more bytes than the n * a the caller allocated -
+   for EVERY n (also when the page holds more values than the header announced). *)
+Theorem C12_caller_allocation_fits : forall w selfmade a isz n rs,
+  adequate w selfmade (DGeneric a isz) = true ->
+  Forall (irun_ok w isz) rs -> rs <> [] ->
+  exists r, c_read_hybrid (hyb_enc w rs) w (lenN (hyb_enc w rs)) (n * a) isz = Ok r /\
+            d_vals r = map (tr isz) (firstn (N.to_nat (N.min (lenN (allvals rs)) n)) (allvals rs)) /\
+            d_written r = isz * N.min (lenN (allvals rs)) n /\
+            d_written r <= n * a.
+Proof. exact generic_leaf_correct. Qed.
+Print Assumptions C12_caller_allocation_fits.
+
+(* stale width bytes of unneeded miniblocks (what parquet-mr leaves there): the model of today's decoder does not unpack
+   such a miniblock - it ends with the cursor at the end of the page, where the spec decoder ends *)
+Theorem C12_delta_stale_width_inside :
+  delta_dec 32 delta_stale_page = Some ([1; 2; 3; 4; 5; 6; 7; 8; 9]%Z, []) /\
+  c_delta_binary_unpack delta_stale_page (repN 2863311530 9 []) 36 false = Ok ([1; 2; 3; 4; 5; 6; 7; 8; 9], 7, 36) /\
+  (lenN delta_stale_page = 7).
+Proof. exact (conj delta_stale_width_spec (conj delta_stale_width_ok eq_refl)). Qed.
+Print Assumptions C12_delta_stale_width_inside.
+
+(* ... and the class behind the example, for EVERY stale width byte 1..255, every block shape and every miniblock reader:
+   with exactly one value left, a miniblock whose width byte is not zero is NOT unpacked - two steps of the decoder's
+   state machine store the last value and finish, consuming no input.  (False for a decoder without the `count > 1` guard.) *)
+Theorem C12_stale_miniblock_reads_nothing : forall isz vpm mpb reader s ws i md w v,
+  u_ph s = PMini ws i md -> i < mpb -> get_nth ws i = Some w -> w <> 0 ->
+  u_count s = 1%Z -> 0 < vpm -> 0 < isz ->
+  o_loc (u_o s) + isz <= o_nbytes (u_o s) -> o_nbytes (u_o s) < 2 ^ 32 ->
+  o_loc (u_o s) mod isz = 0 ->
+  get_nth (o_items (u_o s)) (o_loc (u_o s) / isz) = Some v ->
+  exists s1 s2, u_step isz vpm mpb reader s = Ok s1 /\ u_step isz vpm mpb reader s1 = Ok s2 /\
+                u_ph s2 = PDone /\ u_inp s2 = u_inp s /\ u_used s2 = u_used s.
+Proof. exact stale_miniblock_reads_nothing. Qed.
+Print Assumptions C12_stale_miniblock_reads_nothing.
+
+(* the OUTPUT side of the same routine: parking a whole miniblock of deltas in the output (o.write_int / write_long are
+   checked) never writes outside a buffer of whole items, whatever its size and however many deltas there are: each item is
+   stored or dropped, the cursor stays aligned and inside.  (What is NOT checked is the input side - NumpyIO.read_byte - and
+   the unconditional `o.loc -= 4`: the open findings.) *)
+Theorem C12_delta_scratch_writes_inside : forall isz vs o,
+  0 < isz -> o_loc o mod isz = 0 -> o_nbytes o mod isz = 0 -> o_loc o <= o_nbytes o -> o_nbytes o < 2 ^ 32 ->
+  exists o', o_write_all isz o vs = Ok o' /\ o_nbytes o' = o_nbytes o /\ o_loc o' mod isz = 0 /\ o_loc o' <= o_nbytes o' /\
+             length (o_items o') = length (o_items o).
+Proof. exact (fun isz vs o => o_write_all_inside isz vs o). Qed.
+Print Assumptions C12_delta_scratch_writes_inside.
 
 Example C12_nonvacuous :
   c_read_bitpacked [136; 198; 250] 3 3 12 4 = Ok {| d_vals := [0; 1; 2]; d_used := 3; d_written := 12 |} /\
